@@ -50,6 +50,8 @@ TRUSTED = [
     "correspondence-checked against list(range(n))[slice(a, b, c)] (stream pyslice), not derived from CPython",
     "harness/props/c18_nas.py builds nas2cam-like dictionaries from a known superelement tree; the expected "
     "upasetpv / upqsetpv vectors used by the oracle come from that construction",
+    "n2p._findse / n2p._get_node_ids are private helpers: they are compared directly while they exist (a refactoring "
+    "that removes them skips those two streams; upasetpv / upqsetpv, which use them, stay compared)",
 ]
 RULE = (
     "USET tables are built with n2p.make_uset from distinct ids (grids with one set per grid or one set per DOF, "
@@ -57,10 +59,13 @@ RULE = (
     "base-set masks, Nastran-style words carrying superset bits, and random 32-bit words; major/minor are named "
     "sets, '+' combinations and integer masks; requests are 1-D ids or 2-D [id, component-list] rows with present "
     "and absent DOF, strict and non-strict; nas2cam-like dictionaries are generated from a random superelement tree "
-    "(1-4 upstream SEs, depth <= 3; CSUPER-type ids, SECONCT-type internal ids through upids, reordering maps, maps "
-    "that skip DOF, SEs without q-set), each also with one inconsistency (15 kinds: missing entries, out-of-range / "
-    "negative / short / permuted maps, scale != 1, dropped / extra / repeated dnids, short upids, selist rows "
-    "dropped / repeated), plus the three nas2cam files of pyYeti's own tests; locate inputs are short integer "
+    "(1-7 upstream SEs, depth <= 4, up to 3 upstream SEs per SE, every tenth with a forced chain of depth 3 or 4; "
+    "CSUPER-type ids, SECONCT-type internal ids through upids, reordering maps at every level, maps that skip DOF, SEs "
+    "without q-set, boundary grids shared by two upstream SEs), each also with one inconsistency (16 kinds: missing "
+    "entries, out-of-range / negative / short / permuted maps, scale != 1, dropped / extra / repeated dnids, short "
+    "upids, selist rows dropped / repeated, a cyclic selist), the two dictionaries of the Lean examples, plus the three "
+    "nas2cam files of pyYeti's own tests; selists with repeated / absent SEs for _findse, tables with rows removed for "
+    "_get_node_ids; mat_intersect with keep 0/1/2/3/5 on distinct rows in shuffled and descending order; locate inputs are short integer "
     "vectors/matrices over small alphabets (to force repeats), index vectors with negative and out-of-range "
     "entries, arithmetic progressions (ascending, descending, ending at index 0) and near-progressions, fixed edge "
     "cases (empty, single, all-equal, chains, a difference exactly tol). A case is one call compared exactly; "
@@ -70,9 +75,12 @@ RULE = (
 ASSUMPTIONS = [
     "nasset words and ids are non-negative integers below 2^63 (int64 column); (id, dof) keys of a table are distinct",
     "locate inputs are integers or dyadic floats k/4 (also float32 / int32 / mixed dtypes), so every float comparison is exact",
-    "selist describes a tree (no SE is its own upstream through a cycle): upqsetpv recurses without a bound, the model "
-    "with fuel len(selist)+2; maps hold integer-valued floats; make_uset coordinates are copied, not computed "
-    "(integer-valued xyz in the correspondence)",
+    "upqsetpv recurses without a bound, the model with fuel len(selist)+1: proved equal on an acyclic selist "
+    "(upqsetpv_fuel_suffices); on a cyclic selist the model's `.recursion` is compared with Python's RecursionError "
+    "(a call chain longer than len(selist)+1 repeats an SE, and the routine is a function of the SE id alone); maps hold "
+    "integer-valued floats; make_uset coordinates are copied, not computed (integer-valued xyz in the correspondence)",
+    "upqsetpv_spec: the dictionary has separate connections (Separate; decidable test separateB, evaluated by the "
+    "driver on every generated dictionary and on the nas2cam files of pyYeti's tests)",
 ]
 PARTIAL = (
     "make_uset coordinates (xyz) are proved only for the documented request forms (make_uset_coords_partial): the xyz "
@@ -80,12 +88,18 @@ PARTIAL = (
     "[[1,123],[1,456]], the code writes the xyz row of each request row into ONE table row (rows 1 and 2 of the grid) "
     "and leaves the other rows NaN, and a row [id,1] takes the next six xyz rows (ValueError when fewer remain) - "
     "modelled and correspondence-checked (branch make_uset-xyz:unset-rows), no property is claimed there; the nasset "
-    "column is proved at full strength (make_uset_sets) since fix a37d9b6. upqsetpv: proved are the length, the "
-    "index-assignment law (scatter_spec), the flags of one upstream SE (qupOwn_spec) and the exact result for one "
-    "upstream SE without own upstream SEs and without maps (upqsetpv_one_upstream); the multi-level recursion, several "
-    "upstream SEs and the maps branches are modelled, correspondence-checked and covered by the construction oracle, "
-    "not proved. Float / mixed int-float inputs are dyadic (k/4) and modelled over scaled Int; non-dyadic floats "
-    "(rounding in tol*max, correlate, abs(diff) <= tol) are outside the exact model"
+    "column is proved at full strength (make_uset_sets) since fix a37d9b6. upqsetpv is proved at every depth, for "
+    "several upstream SEs and all maps forms (upqsetpv_spec: flag = connected to an upstream q-set DOF) on dictionaries "
+    "with separate connections (Separate: the places of a connection are distinct and as many as the upstream a-set, "
+    "places shared by two upstream SEs are flagged alike; decidable test separateB, true on every generated dictionary "
+    "and on the three nas2cam files); outside it - a later upstream SE overwriting the flag of an earlier one at a "
+    "shared place (counterexample overlapNas: the hypothesis is necessary), numpy broadcasting of a one-element flag "
+    "vector - the routine is modelled and correspondence-checked, nothing is claimed. Recursion: proved that the fuel "
+    "selist.length+1 is never used up on an acyclic selist and that two SEs naming each other use up every fuel; that "
+    "every other cyclic selist makes the real code recurse for ever is argued (pigeonhole), not proved, and tied by the "
+    "recursion-error branch. n2p.find_xyz_triples, formtran / formulvs / formdrm / addulvs (matrix routines built on the "
+    "set vectors) and usetprt (text) are not modelled. Float / mixed int-float inputs are dyadic (k/4) and modelled over "
+    "scaled Int; non-dyadic floats (rounding in tol*max, correlate, abs(diff) <= tol) are outside the exact model"
 )
 MANIFEST = {
     "level_text": "proof: lattice theorems decided on the table generated from the source; mksetpv (also with '+' "
@@ -93,11 +107,16 @@ MANIFEST = {
     "rows; coordinates for the documented request forms), upasetpv and all "
     "locate helpers (mat_intersect, find_subseq, list_intersect, flippv, index2bool, find_vals, find_rows, find_unique, "
     "find_duplicates, index2slice against a model of CPython slicing, merge_lists incl. where new items are inserted) "
-    "proved against their defining relations for all inputs; exact correspondence",
+    "proved against their defining relations for all inputs; mat_intersect for every keep value with the looped side in "
+    "its original order; upqsetpv up the whole superelement tree (several upstream SEs, any depth, maps re-ordering: "
+    "flag = connected to an upstream q-set DOF, by induction on the recursion) for dictionaries with separate "
+    "connections, termination of its recursion exactly on acyclic selists, the places of its connections = upasetpv, "
+    "upasetpv with a permutation map is a permutation of the boundary rows; _findse, _get_node_ids; exact correspondence",
     "level_note": "library kernels (argsort, searchsorted, correlate, pandas / numpy indexing and index assignment, "
-    "CPython slicing) are modelled and correspondence-checked; upqsetpv beyond one upstream level is tied "
-    "(correspondence + construction oracle) but not proved; make_uset coordinates with split component lists "
-    "(undocumented) are only modelled",
+    "CPython slicing) are modelled and correspondence-checked; upqsetpv outside `Separate` (a later upstream SE "
+    "overwriting an earlier flag at a shared place, broadcasting) is tied (correspondence + construction oracle) but "
+    "nothing is claimed; make_uset coordinates with split component lists (undocumented) are only modelled; "
+    "find_xyz_triples and the matrix routines (formtran, formulvs, formdrm, addulvs) are not modelled",
     "technique": "Lean 4 proof about executable models + ast translator for mkusetmask + exact differential "
     "correspondence + model-free oracle",
 }
@@ -556,6 +575,28 @@ def _nas_streams(ctx, cs):
             cs.add("upqsetpv" + tag, "upq %d | %s" % (s_, secs), _nas_reply(r, True), inp,
                    nontrivial=r[0] == "ok" and bool(np.any(r[1])), branch=br)
 
+    # the dictionary of Props/C18Up.lean `overlapNas`: a later upstream SE overwrites the flag an earlier one set at a
+    # shared place (outside `Separate`; index assignment, the later entry wins) - and the tree of `treeNas`
+    q, b, o = 4194304, 2, 4
+    overlap = N.from_plain({"selist": [[10, 0], [20, 0], [0, 0]],
+                            "uset": {"10": [[91, 0, q]], "20": [[91, 0, b], [92, 0, q]], "0": [[91, 0, b], [92, 0, b]]},
+                            "dnids": {"10": [91], "20": [91, 92]}, "maps": {"10": [], "20": [], "0": []}, "upids": {}})
+    both(overlap, "-fixed", [10, 20], [0])
+    cs.add("upqsetpv-separate", "sep | %s" % N.serialize(overlap), "ok 0", {"nas": N.to_plain(overlap)},
+           nontrivial=True, branch="upqsetpv:later-upstream-overwrites")
+    g = lambda i, w: [[i, d, w] for d in range(1, 7)]
+    tree = N.from_plain({
+        "selist": [[30, 10], [10, 0], [20, 0], [0, 0]],
+        "uset": {"30": g(1, b) + [[91, 0, q]], "10": [[91, 0, b]] + g(5, b) + g(2, o) + [[92, 0, q]],
+                 "20": g(7, b) + [[93, 0, b]],
+                 "0": g(7, b) + [[91, 0, b]] + g(5, b) + [[93, 0, b], [92, 0, b], [50, 0, o]]},
+        "dnids": {"30": [5, 91], "10": [91, 5, 92], "20": [7, 93]},
+        "maps": {"30": [[1, 1], [2, 1], [3, 1], [4, 1], [5, 1], [6, 1], [0, 1]], "10": [], "20": [], "0": []},
+        "upids": {}})
+    both(tree, "-fixed", [30, 10, 20], [0, 10],
+         {"kind": {}, "upa": {30: [1, 2, 3, 4, 5, 6, 0]}, "style": "lean-example",
+          "upq": {0: [0, 0, 0, 0, 0, 0, 1, 0, 0, 0, 0, 0, 0, 1, 1, 0]}})
+    ctx.count("upqsetpv:lean-examples")
     nsep = 0
     for it in range(ctx.pick(150, 1500)):
         # every tenth dictionary has a forced chain of depth 3 or 4 below the residual
@@ -1010,7 +1051,7 @@ def correspondence(ctx):
         "upqsetpv:key-error", "nas-real-dictionary",
         "upqsetpv:separate", "upqsetpv:separate-real", "upqsetpv:depth-3", "upqsetpv:depth-4",
         "upqsetpv:several-upstream", "upqsetpv:several-upstream-above-residual", "upqsetpv:maps-reordered",
-        "upqsetpv:maps-reordered-above-residual", "upqsetpv:recursion-error", "upqsetpv:shared-boundary",
+        "upqsetpv:maps-reordered-above-residual", "upqsetpv:recursion-error", "upqsetpv:shared-boundary", "upqsetpv:later-upstream-overwrites", "upqsetpv:lean-examples",
         "mat_intersect-order:unsorted-values", "mat_intersect-order:keep0", "mat_intersect-order:keep1",
         "mat_intersect-order:keep2", "mat_intersect-order:keep-other",
     ] + (["findse:absent", "findse:once", "findse:repeated"] if ctx.extra["private_helpers_present"]["_findse"] else [])
@@ -1258,6 +1299,24 @@ def _oracle_maskplus(ctx, spec):
                  {"kind": "maskplus", "spec": spec}, r[0] if r[0] != "ok" else int(r[1]), want)
 
 
+def _oracle_findse(ctx, selist, se):
+    """n2p._findse (private; used by upasetpv to find the downstream SE): the first row whose first column is `se`"""
+    n2p, _ = _mods()
+    fn = getattr(n2p, "_findse", None)
+    if fn is None:
+        return
+    r = _call(fn, {"selist": np.array(selist, dtype=np.int64).reshape(-1, 2)}, se)
+    first = [k for k, row in enumerate(selist) if row[0] == se]
+    inp = {"kind": "findse", "selist": selist, "se": se}
+    if not first:
+        if r[0] != "value-error":
+            ctx.fail("findse-absent-se-not-refused", "an SE that is in no row of selist must raise ValueError", inp,
+                     r[0] if r[0] != "ok" else int(r[1]), "ValueError")
+    elif r[0] != "ok" or int(r[1]) != first[0]:
+        ctx.fail("findse-wrong-row", "the row of the FIRST selist entry of the SE", inp,
+                 r[0] if r[0] != "ok" else int(r[1]), first[0])
+
+
 def _oracle_locate(ctx, kind, inp):
     _, locate = _mods()
     if kind == "dups":
@@ -1433,6 +1492,8 @@ def _run_one(ctx, inp):
         _oracle_makeuset(ctx, inp)
     elif k == "maskplus":
         _oracle_maskplus(ctx, inp["spec"])
+    elif k == "findse":
+        _oracle_findse(ctx, inp["selist"], inp["se"])
 
 
 def _hint_to_input(h):
@@ -1461,8 +1522,10 @@ def _hint_to_input(h):
             return dict(i, kind="funique")
         if s == "list_intersect-mixed":
             return dict(i, kind="lint")
-        if s == "mat_intersect":
-            return dict(i, kind="matint")
+        if s in ("mat_intersect", "mat_intersect-order"):
+            return dict(i, kind="matint") if i["keep"] in (0, 1, 2) else None  # other values are undocumented
+        if s == "findse":
+            return dict(i, kind="findse")
         if s == "find_subseq":
             return dict(i, kind="subseq")
         if s in ("flippv", "index2bool"):
@@ -1554,9 +1617,14 @@ def search(ctx, hints):
         ctx.count("oracle:maskplus")
     # base stream 2c: upasetpv / upqsetpv on generated dictionaries (expected vectors known by construction)
     from props import c18_nas as N
-    for _ in range(ctx.pick(120, 1200)):
-        nas, info = N.gen_nas(rng)
+    for it in range(ctx.pick(120, 1200)):
+        nas, info = N.gen_nas(rng, deep=(3 + it // 8 % 2) if it % 8 == 0 else None)
         plain = N.to_plain(nas)
+        if info["depth"] >= 3:
+            ctx.count("oracle:upqsetpv-depth-3-or-4")
+        sl = [[rng.choice([0, 10, 20, 30]), rng.choice([0, 10])] for _ in range(rng.randint(0, 5))]
+        _oracle_findse(ctx, sl, rng.choice([0, 10, 20, 30, 7]))
+        ctx.count("oracle:findse")
         for c, exp in info["expected_upa"].items():
             _oracle_nas(ctx, {"nas": plain, "seup": c, "expected": exp, "style": info["style"]})
             ctx.count("oracle:upasetpv")
@@ -1572,7 +1640,7 @@ def search(ctx, hints):
             c = rng.randint(1, 3)
             d1 = [[rng.randint(0, 2) for _ in range(c)] for _ in range(rng.randint(1, 6))]
             d2 = [[rng.randint(0, 2) for _ in range(c)] for _ in range(rng.randint(1, 6))]
-        _oracle_locate(ctx, "matint", {"D1": d1, "D2": d2, "keep": rng.choice([0, 1, 2])})
+        _oracle_locate(ctx, "matint", {"D1": d1, "D2": d2, "keep": rng.choice([0, 1, 2, 2])})
         _oracle_locate(ctx, "subseq", {"seq": _gen_intlist(rng, 0, 2, 10, 1), "subseq": _gen_intlist(rng, 0, 2, 3, 1)
                                        if rng.random() < 0.8 else _gen_intlist(rng, 0, 1, 12, 1)})
         n = rng.randint(0, 8)
